@@ -78,6 +78,18 @@ type sProp struct {
 	oneof protoreflect.OneofDescriptor // real proto oneof of the final field, if any
 }
 
+// isExposedOneof: the property is a proto oneof exposed as a J5 oneof (not a wrapper message):
+// either directly (empty path) or inlined from a flattened object (path = the flattened field).
+func (p *sProp) isExposedOneof() bool {
+	if p.field.kind != "oneof" {
+		return false
+	}
+	if len(p.path) == 0 {
+		return true
+	}
+	return p.field.refSch != nil && p.field.refMd != nil && p.field.refSch.FullName() != j5Name(p.field.refMd)
+}
+
 func (p *sProp) final() protoreflect.FieldDescriptor {
 	if len(p.path) == 0 {
 		return nil
